@@ -236,6 +236,38 @@ fn check_bail_out_on_meta(enc0: &'static Encoding, label: &str, content: &str, c
     None
 }
 
+/// A user handler on the declaring `<meta>` element edits the declaration (removes or overwrites
+/// the charset attribute): the document's own declaration still decides, the built-in charset
+/// handling looks at the element before user handlers do.
+fn check_meta_user_edit(which: u8, cut: Option<usize>) -> Option<String> {
+    let op = match which {
+        0 => Op::RemoveAttr("charset".into()),
+        1 => Op::SetAttr("charset".into(), "utf-8".into()),
+        _ => Op::SetAttr("charset".into(), "shift_jis".into()),
+    };
+    let hs = vec![HSpec { log: false, ..HSpec::with_ops(HKind::Element, "meta", vec![op]) }, HSpec::obs(HKind::DocText, "")];
+    let p = Prepared::new(Cfg { adjust_charset: true, ..Cfg::with(hs).strict(false) }).ok()?;
+    let mut doc = b"A<meta charset=windows-1251>".to_vec();
+    doc.extend_from_slice(&[0xC6, b'<', b'p', b'>', 0xE6]);
+    let chunks: Vec<&[u8]> = match cut {
+        Some(c) => vec![&doc[..c], &doc[c..]],
+        None => vec![&doc],
+    };
+    let rr = run(&p, &chunks, true);
+    if !rr.all_ok() {
+        return Some(format!("run failed: {:?}", rr.first_failure().map(|(_, r)| r.short())));
+    }
+    let text: String = rr.events.iter().filter_map(|e| if let Ev::Text { text, .. } = e { Some(text.as_str()) } else { None }).collect();
+    if text != "A\u{416}\u{436}" {
+        return Some(format!("a user handler edits the charset attribute of <meta charset=windows-1251>: text read as {text:?}, the document's declaration gives \"A\u{416}\u{436}\""));
+    }
+    let told: Vec<&str> = rr.sink.iter().filter_map(|e| if let SinkEv::SetEncoding(n) = e { Some(n.as_str()) } else { None }).collect();
+    if told.last().copied() != Some("windows-1251") {
+        return Some(format!("a user handler edits the charset attribute of <meta charset=windows-1251>: sink encodings announced {told:?}, expected the last one to be windows-1251"));
+    }
+    None
+}
+
 /// meta charset: at most one switch, only for later tokens, sink notified in between.
 fn check_meta(enc0: &'static Encoding, label: &str, second_label: Option<&str>, cuts: &[usize], scan_mode: bool, unit: &[u8]) -> Option<String> {
     check_meta_form(enc0, label, second_label, cuts, scan_mode, unit, false)
@@ -420,6 +452,7 @@ pub fn replay(case: &Value) -> Option<String> {
         }
         "insert" => check_insert(enc, case["content"].as_str()?, case["html"].as_bool()?),
         "bailout-insert" => check_bail_out_insert(enc, case["content"].as_str()?, case["html"].as_bool()?),
+        "meta-user-edit" => check_meta_user_edit(case["which"].as_u64()? as u8, case["cut"].as_u64().map(|c| c as usize)),
         "bailout-on-meta" => check_bail_out_on_meta(enc, case["label"].as_str()?, case["content"].as_str()?, case["cut"].as_u64().map(|c| c as usize)),
         "meta" => {
             let cuts: Vec<usize> = serde_json::from_value(case["cuts"].clone()).ok()?;
@@ -643,6 +676,18 @@ pub fn run_check(ctx: &Ctx) -> i32 {
             }
         }
     }
+    for which in 0u8..3 {
+        for cut in std::iter::once(None).chain((1..32).map(Some)) {
+            ctx.exec(2);
+            ctx.validated(1);
+            if let Some(msg) = check_meta_user_edit(which, cut) {
+                let case = json!({"kind": "meta-user-edit", "encoding": "UTF-8", "which": which, "cut": cut});
+                let c2 = case.clone();
+                ctx.violation(msg, case, &|| replay(&c2));
+            }
+        }
+    }
+    ctx.level_done("(b'') a user handler removes / overwrites the charset attribute of the declaring meta element x every cut: the document's declaration still decides");
     ctx.level_done("(b') a handler on <meta charset=L> fails (4 initial encodings x 8 labels x 3 contents x 3 schedules): the bail-out handler's content arrives in the encoding the sink has been told");
     // (c) meta charset
     let labels = ["windows-1251", "utf-8", "UTF-16", "shift_jis", "latin1", "bogus-label", "koi8-r", "utf-16be", "iso-2022-jp", "replacement"];
